@@ -1,50 +1,54 @@
 (* C20 property theorems only: each closed by `exact <lemma>` with Print Assumptions beneath.
    Vocabulary: Model.v (executable model of unionfind.py / priority_queue.py + heapq), Gen.v (comparator and
    plumbing GENERATED from priority_queue.py), Spec.v (present, conn, uf_wf, uf_total, root_of, is_query),
-   Proofs_Heap.v (lt_ok, heap_ok), Proofs_PQ.v (qreach, pushed). `reach h` is the state after ANY list of
-   operations h from the empty structure. *)
+   Proofs_Heap.v (lt_ok, heap_ok), Proofs_PQ.v (qreach, pushed). `reach_from l h` is the state after the constructor call
+   UnionFind(l) (l ANY list of elements, duplicates allowed, [] for no argument / None) followed by ANY list of
+   operations h; `full l h` = map Add l ++ h is that history as the abstract spec sees it (the constructor adds
+   each element of l, so its elements are present and duplicates collapse). *)
 From Coq Require Import ZArith List Bool Permutation.
 Import ListNotations.
 Require Import MV.C20.Model MV.C20.Gen MV.C20.Run MV.C20.Spec.
-Require Import MV.C20.Proofs_Base MV.C20.Proofs_Heap MV.C20.Proofs_PQ MV.C20.Proofs_UF.
+Require Import MV.C20.Proofs_Base MV.C20.Proofs_Heap MV.C20.Proofs_PQ MV.C20.Proofs_UF MV.C20.Proofs_Init.
 
 (* 1. structural invariant along every history: array lengths agree, elements distinct, parents in range,
       n_elts = _next = |_elts|, the dict _indx maps each element to its position (lookup = index_of), the parent
       forest is acyclic (find ends within its fuel at a root), n_comps = number of roots, _siz at a
       root = size of its tree; no operation runs out of fuel and ValueError is raised exactly for absent
       elements. *)
-Theorem C20_uf_invariant : forall h : list op, uf_wf (reach h) /\ uf_total (reach h).
-Proof. exact uf_invariant. Qed.
+Theorem C20_uf_invariant : forall (l : list Z) (h : list op),
+  uf_wf (reach_from l h) /\ uf_total (reach_from l h).
+Proof. exact uf_invariant_from. Qed.
 Print Assumptions C20_uf_invariant.
 
 (* 2. refinement: `connected` answers True exactly when a chain of unions joins x and y (conn = least
       equivalence on the present elements containing the united pairs), False exactly when both are present
       and no chain joins them, ValueError exactly when one is absent; `x in uf` is presence; `find` returns
       the index of an element of x's class, the same index for every element of that class. *)
-Theorem C20_uf_refines : forall (h : list op) (x y : Z),
-  let s := reach h in
-  (mem s x = true <-> present h x) /\
-  ((exists s', connected s x y = Ok (s', true)) <-> conn h x y) /\
-  ((exists s', connected s x y = Ok (s', false)) <-> present h x /\ present h y /\ ~ conn h x y) /\
-  (connected s x y = ValueError <-> ~ present h x \/ ~ present h y) /\
+Theorem C20_uf_refines : forall (l : list Z) (h : list op) (x y : Z),
+  let s := reach_from l h in
+  let H := full l h in
+  (mem s x = true <-> present H x) /\
+  ((exists s', connected s x y = Ok (s', true)) <-> conn H x y) /\
+  ((exists s', connected s x y = Ok (s', false)) <-> present H x /\ present H y /\ ~ conn H x y) /\
+  (connected s x y = ValueError <-> ~ present H x \/ ~ present H y) /\
   (forall s' i, find s x = Ok (s', i) ->
-      i < length (elts s) /\ conn h x (nth i (elts s) 0%Z) /\
-      forall y s'' j, conn h x y -> find s' y = Ok (s'', j) -> j = i).
-Proof. exact uf_refines. Qed.
+      i < length (elts s) /\ conn H x (nth i (elts s) 0%Z) /\
+      forall y s'' j, conn H x y -> find s' y = Ok (s'', j) -> j = i).
+Proof. exact uf_refines_from. Qed.
 Print Assumptions C20_uf_refines.
 
 (* 3. queries (find, connected, component, roots, components, component_mapping, len, n_comps, in, uf[i])
       change nothing but the parent array (not n_elts, _next, _indx either), and not the partition it encodes. *)
-Theorem C20_uf_queries_pure : forall (h : list op) (o : op),
+Theorem C20_uf_queries_pure : forall (l : list Z) (h : list op) (o : op),
   is_query o ->
-  let s := reach h in
+  let s := reach_from l h in
   let s' := apply s o in
   elts s' = elts s /\ siz s' = siz s /\ ncomps s' = ncomps s /\
   n_elts s' = n_elts s /\ next s' = next s /\ indx s' = indx s /\
   (forall i, i < length (elts s) -> root_of s' i = root_of s i) /\
   (forall x y, same_comp s' x y = same_comp s x y) /\
-  (forall x y, conn (h ++ [o]) x y <-> conn h x y).
-Proof. exact uf_queries_pure. Qed.
+  (forall x y, conn (full l h ++ [o]) x y <-> conn (full l h) x y).
+Proof. exact uf_queries_pure_from. Qed.
 Print Assumptions C20_uf_queries_pure.
 
 (* 4. all views describe that one partition: the stored elements are exactly the present ones, each once, in
@@ -53,30 +57,41 @@ Print Assumptions C20_uf_queries_pure.
       component(x) is x's class; components() lists every element exactly once, n_comps non-empty lists, two
       elements share a list iff connected; roots() has n_comps entries, one per class; component_mapping()
       maps every element to its class; n_comps is the number of classes (a transversal of that size exists). *)
-Theorem C20_uf_views : forall h : list op,
-  let s := reach h in
-  (NoDup (elts s) /\ forall x, In x (elts s) <-> present h x) /\
-  (elts s = added h /\ n_elts s = length (added h) /\ next s = length (added h)) /\
-  (forall i, getitem s i = if ((i <? 0) || (Z.of_nat (length (added h)) <=? i))%Z then None
-                           else Some (nth (Z.to_nat i) (added h) 0%Z)) /\
-  (forall x s' l, component s x = Ok (s', l) -> NoDup l /\ forall y, In y l <-> conn h x y) /\
+Theorem C20_uf_views : forall (l : list Z) (h : list op),
+  let s := reach_from l h in
+  let H := full l h in
+  (NoDup (elts s) /\ forall x, In x (elts s) <-> present H x) /\
+  (elts s = added H /\ n_elts s = length (added H) /\ next s = length (added H)) /\
+  (forall i, getitem s i = if ((i <? 0) || (Z.of_nat (length (added H)) <=? i))%Z then None
+                           else Some (nth (Z.to_nat i) (added H) 0%Z)) /\
+  (forall x s' l, component s x = Ok (s', l) -> NoDup l /\ forall y, In y l <-> conn H x y) /\
   (forall s' cs, components s = Ok (s', cs) ->
      Permutation (concat cs) (elts s) /\ length cs = ncomps s /\ (forall c, In c cs -> c <> []) /\
-     (forall x y, (exists c, In c cs /\ In x c /\ In y c) <-> conn h x y)) /\
+     (forall x y, (exists c, In c cs /\ In x c /\ In y c) <-> conn H x y)) /\
   (forall s' rts, roots s = Ok (s', rts) ->
      NoDup rts /\ length rts = ncomps s /\
      (forall rt, In rt rts -> rt < length (elts s) /\ root_of s' rt = rt) /\
      let reps := map (fun rt => nth rt (elts s) 0%Z) rts in
-     NoDup reps /\ (forall x, present h x -> exists e, In e reps /\ conn h x e) /\
-     (forall e1 e2, In e1 reps -> In e2 reps -> conn h e1 e2 -> e1 = e2)) /\
+     NoDup reps /\ (forall x, present H x -> exists e, In e reps /\ conn H x e) /\
+     (forall e1 e2, In e1 reps -> In e2 reps -> conn H e1 e2 -> e1 = e2)) /\
   (forall s' m, mapping s = Ok (s', m) ->
      map fst m = elts s /\
-     forall x c, In (x, c) m -> NoDup c /\ forall y, In y c <-> conn h x y) /\
-  (exists reps, length reps = ncomps s /\ NoDup reps /\ (forall e, In e reps -> present h e) /\
-     (forall x, present h x -> exists e, In e reps /\ conn h x e) /\
-     (forall e1 e2, In e1 reps -> In e2 reps -> conn h e1 e2 -> e1 = e2)).
-Proof. exact uf_views. Qed.
+     forall x c, In (x, c) m -> NoDup c /\ forall y, In y c <-> conn H x y) /\
+  (exists reps, length reps = ncomps s /\ NoDup reps /\ (forall e, In e reps -> present H e) /\
+     (forall x, present H x -> exists e, In e reps /\ conn H x e) /\
+     (forall e1 e2, In e1 reps -> In e2 reps -> conn H e1 e2 -> e1 = e2)).
+Proof. exact uf_views_from. Qed.
 Print Assumptions C20_uf_views.
+
+(* 4b. the constructor GENERATED from UnionFind.__init__ (Gen.v: uf_new, uf_init_none, uf_init) is the model's:
+       all seven fields start empty / zero, None stands for the empty container, and every element of the
+       container goes through `add`; the elements of the constructor are present afterwards. *)
+Theorem C20_uf_constructor :
+  (uf_new = uf_empty /\ uf_init_none = [] /\
+   forall l : list Z, uf_init l = init_from l /\ uf_init l = reach_from l []) /\
+  (forall l h x, present (full l h) x <-> In x l \/ present h x).
+Proof. exact (conj uf_constructor present_full). Qed.
+Print Assumptions C20_uf_constructor.
 
 (* 5. heapq, any comparator: push adds exactly the pushed item, pop removes exactly the item it hands out,
       and fails (IndexError) exactly on the empty heap. *)
